@@ -119,6 +119,17 @@ PROPS = {
         "assumptions": ["the precedence-climbing algorithm itself (Dijkstra / Richards) is correct given the two comparisons"],
         "technique": "static analysis: table agreement (MIR constants vs reference document), comparison-operator rules on MIR",
     },
+    "C11": {
+        "module": "c11",
+        "explanation": "R71 (exhaustive over the 1653 ordered pairs of the 58 recognisers `token` tries, order read from MIR, literals "
+                       "from the unexpanded macros and cross-checked against MIR constants): no earlier recogniser matches a proper "
+                       "prefix of a later one; the 11 multi-character operators of the property against their prefixes. R72: no "
+                       "u8->char cast reaches token text. R73: every Token's pos comes from Position::from of an unconsumed clone of "
+                       "the recogniser's input (59 sites). R74: WS/COMMENT never pushed to the output. R86 (exhaustive): escape table = "
+                       "documented escapes. Not decided: column semantics for non-ASCII text (byte columns), token-stream equality "
+                       "across layouts as a whole; keyword-like prefixes of words (`truex`, `NULLx`) are noted, not claimed.",
+        "assumptions": ["abortable_parser's text_token! consumes exactly the literal it is given"],
+    },
 }
 
 
